@@ -189,6 +189,17 @@ type HasMapAny struct {
 	M MapAnyT
 }
 
+// MapNT is an ordered map with nullable values; HasMapN also holds a list of lists and a nullable list field.
+type MapNT struct {
+	Keys   []string
+	Values map[string]*int64
+}
+type HasMapN struct {
+	M  MapNT
+	LL [][]string
+	NL *[]int64
+}
+
 // BigU holds unsigned values above the int64 range, alone and in (nested) slices.
 type BigU struct {
 	U uint64
@@ -239,6 +250,11 @@ type Item2 struct { N Int  M String }
 type Clash struct { A Item1  B Item2 }
 type MapAny {String:Any}
 type HasMapAny struct { M MapAny }
+type MapN {String:nullable Int}
+type StrList [String]
+type StrListList [StrList]
+type IntList [Int]
+type HasMapN struct { M MapN  LL StrListList  NL nullable IntList }
 type UList [Int]
 type UListList [UList]
 type BigU struct { U Int  L UList  N UListList }
@@ -406,6 +422,16 @@ var vocab = []vtype{
 			},
 			func() interface{} {
 				return &HasMapAny{M: MapAnyT{Keys: []string{}, Values: map[string]datamodel.Node{}}}
+			},
+		}},
+	{name: "HasMapN", schema: "HasMapN", ptr: func() interface{} { return (*HasMapN)(nil) },
+		vals: []func() interface{}{
+			func() interface{} {
+				return &HasMapN{M: MapNT{Keys: []string{"b", "n", "a"}, Values: map[string]*int64{"b": ip(2), "n": nil, "a": ip(-1)}},
+					LL: [][]string{{"x", "y"}, {}, {"z"}}, NL: &[]int64{4, 5}}
+			},
+			func() interface{} {
+				return &HasMapN{M: MapNT{Keys: []string{}, Values: map[string]*int64{}}, LL: [][]string{}, NL: nil}
 			},
 		}},
 	{name: "BigU", schema: "BigU", cborOnly: true, ptr: func() interface{} { return (*BigU)(nil) },
